@@ -340,3 +340,117 @@ def run_deep(facts, report, config):
                 report.add(Instance(key, "c15.deep", "ok",
                                     "auto: operands reach the family callee in order (receiver from %s, argument from %s)" % (
                                         sorted(p0), sorted(p1)), d["fam0"][1].get("span"), detail), config)
+
+
+# ---------------------------------------------------------------------------------------------
+# R5 sibling agreement: `X` and `X_vartime` in the same impl block prepare their operands alike.
+
+TIMING_ONLY_SUF = ("_vartime",)
+SIB_IGNORE = {"clone", "into", "from", "as_ref", "deref", "borrow", "to_owned", "expect", "unwrap"}
+
+
+def _strip_vt(seg):
+    s = seg or ""
+    for x in TIMING_ONLY_SUF:
+        while s.endswith(x):
+            s = s[:-len(x)]
+    return s
+
+
+def _prep_signature(view, prov, op, depth=0):
+    """{(chain of preparing callees, param index)}: which helper calls a family-callee operand went through,
+    from which parameter. Only calls whose result *is* the operand (value provenance) count."""
+    out = set()
+    for r in mir.uniq_roots(prov.roots_of_operand(op)):
+        if r.kind == "param":
+            out.add(((), r.what))
+        elif r.kind == "call" and depth < 3 and r.site is not None:
+            t = view.blocks[r.site[0]]["term"]
+            seg = _strip_vt(mir.last_seg(mir.callee_name(t)) or mir.last_seg(mir.callee_decl(t)))
+            inner = set()
+            for a in t.get("args", []):
+                inner |= _prep_signature(view, prov, a, depth + 1)
+            if seg in SIB_IGNORE:
+                out |= inner
+                continue
+            if not inner:
+                out.add(((seg,), None))
+            for ch, p in inner:
+                out.add(((seg,) + ch, p))
+        elif r.kind == "const":
+            out.add((("const",), None))
+        elif r.kind == "multi":
+            continue
+        else:
+            out.add(((r.kind,), None))
+    return out
+
+
+def _one_family_call(view, own=None):
+    live = view.live_blocks()
+    if any(view.blocks[i]["term"]["k"] == "switch" for i in live):
+        return None
+    fam = []
+    for i in live:
+        t = view.blocks[i]["term"]
+        if t["k"] != "call" or _neutral_callee(t):
+            continue
+        f = family(mir.last_seg(mir.callee_name(t))) or family(mir.last_seg(mir.callee_decl(t)))
+        if f and (own is None or f == own or f in COMPAT.get(own, ())):
+            fam.append((i, t, f))
+    return fam[0] if len(fam) == 1 else None
+
+
+def run_siblings(facts, report, config):
+    groups = {}
+    for b in facts.fn_bodies():
+        if b["kind"] == "Closure" or not b.get("name"):
+            continue
+        parent = b["id"].rsplit("::", 1)[0]
+        groups.setdefault(parent, {})[b["name"]] = b
+    for parent, members in sorted(groups.items()):
+        for name, bv in sorted(members.items()):
+            if not name.endswith("_vartime"):
+                continue
+            bc = members.get(_strip_vt(name))
+            if bc is None or family(name) is None:
+                continue
+            vv, vc = mir.BodyView(bv), mir.BodyView(bc)
+            own = family(name)
+            fv, fc = _one_family_call(vv, own), _one_family_call(vc, own)
+            if fv is None or fc is None or vv.argc != vc.argc:
+                continue
+            if _strip_vt(mir.last_seg(mir.callee_name(fv[1]))) != _strip_vt(mir.last_seg(mir.callee_name(fc[1]))):
+                continue
+            if len(fv[1]["args"]) != len(fc[1]["args"]):
+                continue
+            report.count("vartime_sibling_pairs")
+            key = "c15.sibling|%s" % norm_id(bv["id"])
+            pv, pc = mir.Provenance(vv), mir.Provenance(vc)
+            diffs = []
+            for k, (av, ac) in enumerate(zip(fv[1]["args"], fc[1]["args"])):
+                sv, sc = _prep_signature(vv, pv, av), _prep_signature(vc, pc, ac)
+                if sv != sc:
+                    diffs.append("operand %d of `%s`: %s prepares it as %s, %s as %s" % (
+                        k, mir.last_seg(mir.callee_name(fv[1])), name, _fmt_sig(sv), bc["name"], _fmt_sig(sc)))
+            if diffs:
+                report.add(Instance(key, "c15.sibling", "violation",
+                                    "`%s` and its constant-time sibling `%s` reach the same operation with differently "
+                                    "prepared operands, so the two routes can disagree: %s" % (
+                                        name, bc["name"], "; ".join(diffs)), fv[1]["s"],
+                                    {"vartime": bv["id"], "sibling": bc["id"]}), config)
+            else:
+                report.add(Instance(key, "c15.sibling", "ok",
+                                    "auto: both siblings pass identically prepared operands to `%s`" %
+                                    mir.last_seg(mir.callee_name(fv[1])), fv[1]["s"],
+                                    {"vartime": bv["id"], "sibling": bc["id"]}), config)
+
+
+def _fmt_sig(sig):
+    parts = []
+    for ch, p in sorted(sig, key=lambda x: (x[0], x[1] or 0)):
+        s = "_%s" % p if p else "?"
+        for c in reversed(ch):
+            s = "%s(%s)" % (c, s)
+        parts.append(s)
+    return "{" + ", ".join(parts) + "}"
